@@ -300,6 +300,11 @@ pub fn plan(prop: &str, tier: Tier) -> Option<Plan> {
         }
         rule.push_str(" | the same engines also run against a nightly build of the crate with `unstable_dropck_eyepatch` (flavour eyep).");
     }
+    // counts, offsets and union tags with a 32-bit usize (the raw round trips of harness/m32 read every count
+    // accessor and go through both union variants)
+    if matches!(prop, "C04" | "C12") {
+        jobs.push(job(eng::c16::C11M32Engine, 0, "all"));
+    }
     // Default is a constructor: wherever a handle type implements it the result is a fresh sole owner (autoref
     // probes inside the copy-constructor engine; the clause is tagged C06, C04, C09)
     if matches!(prop, "C04" | "C09") {
